@@ -135,6 +135,8 @@ def worker(ctx):
             jobs.append(('depth', fam, v))
     jobs.append(('size', 'decl', 0))
     jobs.append(('files', 'matlab', 0))
+    for fam in ('ns', 'tt', 'mix'):
+        jobs.append(('reject', fam, 0))
     nrand = 48 if tier == 'quick' else 800
     for j in range(nrand):
         jobs.append(('rand', j, 0))
@@ -171,6 +173,41 @@ def worker(ctx):
                     break
             if ctx.index == 0 and idx == ctx.index:
                 acc.sample({'family': fam, 'steps_by_depth': series})
+        elif kind == 'reject':
+            # rejecting a nested file (syntax error after the nested part) must stay polynomial as well, and must not
+            # change the cost of later parses in the process (h1_C19_1: memoisation switched off in an error path)
+            import gtwrap.interface_parser as parser
+            rej, before, after = {}, {}, {}
+            bad = None
+            for d in (3, 6, 12):
+                text = FAMILIES[fam](d, v)
+                before[d] = measure(text)[0]
+                monitors.STEPS.steps = 0
+                monitors.STEPS.cap = ABS_CAP
+                try:
+                    parser.Module.parseString(text + '\nclass ;\n')
+                    bad = {'what': 'text with a syntax error accepted (decided by C07)'}
+                except monitors.StepBudgetExceeded:
+                    rej[d] = ABS_CAP + 1
+                except Exception:
+                    rej[d] = monitors.STEPS.steps
+                finally:
+                    monitors.STEPS.cap = None
+                after[d] = measure(text)[0]
+                acc.case('reject/%s/%d' % (fam, d), True)
+                acc.count('rejections_measured')
+                acc.count('rule_applications', rej.get(d, 0))
+                if rej.get(d, 0) > ABS_CAP:
+                    bad = {'what': 'rule applications while rejecting exceed the absolute cap', 'cap': ABS_CAP}
+                elif after[d] is None or before[d] is None or after[d] > 2 * before[d]:
+                    bad = {'what': 'a rejected parse changes the cost of the next parse of a valid text'}
+                elif d >= 6 and d // 2 in rej and rej[d] > 6 * rej[d // 2]:
+                    bad = {'what': 'r(2d) > 6*r(d): super-polynomial growth of the work to reject'}
+                if bad:
+                    break
+            if bad and 'decided by C07' not in bad['what']:
+                bad.update({'reject_steps': rej, 'accept_steps_before': before, 'accept_steps_after': after})
+                acc.violation({'kind': 'reject', 'family': fam, 'variant': v}, bad)
         elif kind == 'files':
             # the same declarations spread over k interface files: the MATLAB generator reads the list as one text, so
             # its parsing work must stay close to that of the single file and grow linearly with k
@@ -253,6 +290,20 @@ def replay(case, ctx):
         if out[2 * case['d']] > 6 * out[case['d']] or max(out.values()) > ABS_CAP:
             return [{'series': out}]
         return []
+    if case['kind'] == 'reject':
+        import gtwrap.interface_parser as parser
+        out = {}
+        for d in (3, 6):
+            text = FAMILIES[case['family']](d, case['variant'])
+            a = measure(text)[0]
+            monitors.STEPS.steps = 0
+            try:
+                parser.Module.parseString(text + '\nclass ;\n')
+            except Exception:
+                pass
+            out[d] = (a, monitors.STEPS.steps, measure(text)[0])
+        bad = out[6][1] > 6 * out[3][1] or any(c is None or c > 2 * a for a, _, c in out.values())
+        return [{'accept_reject_accept_steps': out}] if bad else []
     if case['kind'] == 'size':
         a, b = measure(decl(case['n']))[0], measure(decl(2 * case['n']))[0]
         return [{'series': {case['n']: a, 2 * case['n']: b}}] if b > 2.6 * a else []
